@@ -70,6 +70,27 @@ fn clone_isolated<T: Dom>(outer: VK, k: usize, clone_at: usize) {
     for t in 0..k { tw.update(T::input(&format!("x{t}"))); }
     T::oblige(&format!("{}: after the clone was fed, the original still equals a fresh twin", outer.name()), opt_ident(a.last(), tw.last()));
 }
+/// two live instances must not interfere: A's outputs are the same whether or not a second instance B (same type; same or different
+/// window length) is being fed a different stream in between — catches process-wide / shared state (static, thread_local, Rc)
+fn interference<T: Dom>(vk: VK, other: VK, k: usize) {
+    let positive = vk.needs_positive();
+    let xs: Vec<T> = (0..k).map(|t| { let x = T::input(&format!("{}x{t}", if positive { "pos" } else { "" })); if positive { T::assume(lt(T::zero(), x)); } x }).collect();
+    // reference: A alone
+    let mut a0 = mk::<T>(&vk, &None);
+    let alone: Vec<Option<T>> = xs.iter().map(|x| { a0.update(*x); a0.last() }).collect();
+    drop(a0);
+    // A again, interleaved with B on another stream, and with a short-lived third instance created and dropped midway
+    let mut a = mk::<T>(&vk, &None);
+    let mut b = mk::<T>(&other, &None);
+    for t in 0..k {
+        let z = T::input(&format!("{}z{t}", if positive { "pos" } else { "" }));
+        if positive { T::assume(lt(T::zero(), z)); }
+        b.update(z); let _ = b.last();
+        if t == k / 2 { let mut c = mk::<T>(&vk, &None); c.update(z); let _ = c.last(); }
+        a.update(xs[t]);
+        T::oblige(&format!("{} t={t}: output unaffected by a second live instance ({}) fed another stream", vk.name(), other.name()), opt_ident(a.last(), alone[t]));
+    }
+}
 pub fn units(tier: Tier, seed: u64) -> Vec<Unit> {
     let q = tier == Tier::Quick;
     let ns: Vec<usize> = vec![2, 3];
@@ -94,6 +115,22 @@ pub fn units(tier: Tier, seed: u64) -> Vec<Unit> {
             u.push(unit!(format!("C17/clone-isolated/{}/k={ki}/clone@{}", vk.name(), clone_at.min(ki - 1)), clone_isolated(vk.clone(), ki, clone_at.min(ki - 1))));
         }
     }
+    // interference between live instances
+    {
+        let mut seen = std::collections::HashSet::new();
+        for &n in &[2usize, 3] {
+            for vk in wrappers(n) {
+                if !seen.insert(vk.name()) { continue; }
+                let heavy = matches!(vk, VK::NET(_) | VK::EFT(..) | VK::HLNormalizer(_) | VK::LaguerreRSI(_) | VK::Rsi(_) | VK::MyRSI(_) | VK::Min(_) | VK::Max(_));
+                if q && n == 3 && heavy { continue; }
+                let k = if heavy { 4 } else { 6 };
+                // same parameters, and the neighbouring window length
+                let other = wrappers(n + 1).into_iter().find(|o| std::mem::discriminant(o) == std::mem::discriminant(&vk)).unwrap_or(vk.clone());
+                let mut a = unit!(format!("C17/interference/{} vs same/k={k}", vk.name()), interference(vk.clone(), vk.clone(), k)); a.concolic = if heavy { Some(seed + 31) } else { None }; u.push(a);
+                let mut b = unit!(format!("C17/interference/{} vs {}/k={k}", vk.name(), other.name()), interference(vk.clone(), other.clone(), k)); b.concolic = Some(seed + 32); u.push(b);
+            }
+        }
+    }
     // binary combinators (Add is not Clone: twin/purity only) over (Sma(2), Echo)
     // seeded two-level chains
     let pool: Vec<VK> = wrappers(2).into_iter().filter(|v| !matches!(v, VK::NET(_) | VK::EFT(..) | VK::HLNormalizer(_))).collect();
@@ -111,7 +148,7 @@ pub fn units(tier: Tier, seed: u64) -> Vec<Unit> {
 }
 pub fn meta() -> Meta {
     Meta {
-        functions: vec!["every view of the crate ::{new,update,last,clone} (catalogue in engine/src/views.rs), over Echo and in seeded two-level chains"],
+        functions: vec!["two live instances of every view fed different streams (interference)", "every view of the crate ::{new,update,last,clone} (catalogue in engine/src/views.rs), over Echo and in seeded two-level chains"],
         bounds: "N in {2,3} (quick: N=3 only for the views with few comparisons per step), raised to the view's minimum; k = 2N+3 (<= 6 for heavily branching views); twins first polled only at steps 1, 2, 3, k/2 and k-1; clones taken after steps 0, 1, k/2 and a VERIF_SEED-chosen step; VERIF_SEED also chooses the pattern of extra last() calls (0..3 per step); 16 / 80 seeded two-level chains; all comparison outcomes up to 6000 paths per unit",
         outside: vec!["Add (does not implement Clone): twin and purity obligations only via C14/C01", "chains deeper than two, N > 3"],
         assumptions: vec!["term identity: identical terms are bit-identical in every float format; where two outputs are equal in the reals but not term-identical this is counted separately in the evidence (equal_in_reals_only)"],
